@@ -94,10 +94,7 @@ static Plan plan_C01(Rng& r, const std::string& tier) {
 		if (c > 0 && r.chance(1, 2)) { progs.push_back(foreign_program(r, c, pool, r.range(3, 12))); continue; }
 		PG g(r, c); int ep = r.range(1, 3);
 		for (int e = 0; e < ep; ++e) {
-			TAOpts o; o.max_states = r.chance(1, 6) ? (thorough ? 8 : 7) : r.range(2, 5); o.sparse = r.chance(1, 4);
-			TA A = gen_ta(r, pool, o);
-			TA B = r.chance(1, 2) ? derive_ta(r, pool, A, int(r.below(6))) : gen_ta(r, pool, o);
-			if (r.chance(1, 10)) std::swap(A, B);
+			TA A, B; gen_incl_pair(r, pool, r.chance(1, 6) ? (thorough ? 8 : 7) : r.range(2, 5), r.chance(1, 4), A, B);
 			int a = g.load(A, 0), b = g.load(B, 0);
 			if (r.chance(1, 4)) g.push(mk(c, "et_copy", {a}), 0);                   // operand shares storage with another handle
 			if (r.chance(1, 5)) g.push(mk(c, "churn", {long(r.below(100000)), long(r.range(4, 30))}));
